@@ -311,8 +311,11 @@ class Analysis:
             if vp != "" and self.is_value_arg(p["local"]):
                 ty = self.operand_ty(op)
                 if ty is not None and ty["k"] in ("ref", "rawptr"):
-                    self.regions.add("A%d%s*" % (p["local"], vp))
-                    return {"A%d%s*" % (p["local"], vp): self.ty_mut_carrier(ty)}
+                    nm = "A%d%s*" % (p["local"], vp)
+                    self.regions.add(nm)
+                    self._reginfo(nm, self._deref_ty(ty), (),
+                                  ty["k"] == "ref" and not ty["mut"] and not has_interior_mut(ty["to"]))
+                    return {nm: self.ty_mut_carrier(ty)}
             return self.pts.get(p["local"], {})
         out = {name + "*": True}
         for r, tg in self.cpts.items():
